@@ -104,6 +104,14 @@ def run(tier, seed, jobs=None):
                 vcount[key] = vcount.get(key, 0) + 1
                 V.append((key, f'running {yname} first changes the result of {xname} (PYTHONHASHSEED={sd})',
                           {'item': xname, 'after': yname, 'seed': sd}, None))
+        # histories: reads before a change of the database must not alter what is read afterwards
+        for sd, res in plain:
+            for nm in res.pop('__history__', []):
+                key = 'history:earlier-reads-change-later-results'
+                vcount[key] = vcount.get(key, 0) + 1
+                V.append((key, f'{nm}: after removing a lexicon and adding another one in the same process, the reads '
+                          f'differ from those of a process that had not read before (PYTHONHASHSEED={sd})',
+                          {'item': nm, 'seed': sd}, None))
         # cross-process stage
         ref_seed, ref = plain[0]
         for sd, res in plain:
